@@ -128,6 +128,22 @@ chk("C19",
     "stateless model checking of the real code under a controlled cooperative scheduler (preemption-bounded enumeration of thread interleavings, CHESS-style) + separate free-running race-detector pass",
     "DESIGN.md section 6, C19; section 2.3")
 
+chk("C06",
+    "The driver is a nondeterministic generator: it chooses an abstract document (block skeletons of <= 4 nodes; inline sequences from a 31-atom menu in 8 composition contexts; all escaped texts of <= 3 characters over letter/space/32 punctuation characters) and then every spelling the serializer is allowed (bullet and delimiter characters, marker padding 1-4, tab where a tab stop makes it equal, fence character/length, ATX closing sequence, setext underline length, quote marker variants, title quoting, destination form, hard-break spelling, escaping style, LF/CRLF) within a deviation bound; the real Parse+RenderHTML output must equal the document's denotation through ref.Norm. A guard that re-reads every line with the reference recognisers rejects (and counts) documents it cannot prove unambiguous.",
+    "Bounded scope (node/atom/deviation bounds in the evidence). The abstract model, denotation and serializer are the trusted base (Appendix A of DESIGN.md), self-tested against spec examples their canonical spellings coincide with. Laziness and most tab spellings are not generated.",
+    "stateless model checking of a closed generator-serializer-parser-renderer system: exhaustive enumeration of abstract documents x deviation-bounded serializer spellings; reference denotation as oracle",
+    "DESIGN.md section 6, C06; Appendix A")
+chk("C09",
+    "Every tab-free bounded input D is quoted with each of 4 block quote marker spellings and, when admissible, indented under each of 7 list markers with N=1..4; every variant must parse to exactly one block quote / one one-item list whose safe-mode rendering is D's rendering wrapped (through ref.Norm, modulo renderer-made <p> for the tight one-item list), with an equal reference map.",
+    COMMON_NOTE,
+    "stateless explicit enumeration of all bounded inputs x 32 container transformations; metamorphic oracle on the real parser and renderer",
+    "DESIGN.md section 6, C09")
+chk("C20",
+    "First clause: the real Format is closed with a scripted writer (with and without WriteString) that may fail at any one write call; every fault point of every bounded input is one execution (returned error must be that writer's error, no write after it), the fault-free execution checks nil error, determinism, equality across writer kinds and an unchanged tree. Second clause: every canonical-style document of the supported construct set S_fmt (block skeletons and inline sequences of the C06 generator in canonical spelling) is formatted, re-parsed and compared on rendered HTML, and re-formatted for byte equality.",
+    "Bounded scope (alphabets, lengths, document sizes in the evidence). S_fmt is fixed in DESIGN.md section 6 (C20); documents outside it are counted, not judged.",
+    "fault enumeration over a controlled writer (every write-call fault point) + exhaustive enumeration of canonical documents with a round-trip oracle",
+    "DESIGN.md section 6, C20", "fault_enumeration")
+
 # Reasons for properties not (yet) claimed.
 PENDING = {}
 
